@@ -5,6 +5,11 @@ ROOT = os.path.dirname(os.path.dirname(os.path.abspath(__file__)))
 
 # id -> (level category, technique, level text, level note, design ref)
 CHECKS = {
+ "C07": ("model_checking",
+   "product BFS (mutator x collector micro-steps) with a precision monitor; exhaustive create/run/service/drop histories under a counting allocator; real-pacing allocation loops with a differential-in-n oracle",
+   "(a) In every explored schedule of the C06 product search, when a cycle finishes every object that was unreachable at its start has been reclaimed. (b) Allocation loops run under the real maybe_gc pacing keep a maximum heap that does not grow with the iteration count while completed cycles do. (c) Every history up to the bound of creating, running (1/50/all steps), servicing and dropping up to two runtimes over six programs (string constants, blocked tasks, running tasks at main's end, runtime error, pending host call, heap-heavy) returns the process's live heap bytes to the baseline once all runtimes are dropped.",
+   "Bounds: listed programs, 2/3 cycles, histories of length <= 4/5, n up to 10^4/10^5; the differential bound of (b) is 1.25x + 64 bytes; the counting allocator and the H3 hooks are trusted.",
+   "DESIGN.md §3 C07"),
  "C06": ("model_checking",
    "explicit-state BFS over the product of the real mutator and the real incremental collector (per-object mark/sweep micro-steps), invariant checked in every state",
    "For each program of a purpose-written family the search explores every interleaving of single VM instructions with single collector steps (start cycle, mark one grey object, sweep one object, per green thread, up to 2/3 cycles per thread) on the real VM in manual-GC + quarantine mode; an independent reachability walk must find no reclaimed reachable object in any state, no access may touch a reclaimed object, and every maximal path must produce the outcome of the collection-disabled run. Any real pacing is a coarsening of these micro-steps.",
